@@ -556,10 +556,15 @@ func runPlanS(def *PropDef, p *Plan, scratch string) *RunResult {
 			s.TaskEnd(ti)
 		}(i)
 	}
+	segsBefore := len(segmentBases(r.Dir))
 	s.Start()
 	wg.Wait()
 	res.Steps = s.Steps()
 	res.Sites = s.SiteHits()
+	for _, hs := range s.HeldSites() {
+		res.Sites["hold@"+hs]++
+		res.Faults["hold"]++
+	}
 	res.SimUS = sim.NowUS() - p.Cfg.StartUS
 	sig := fmt.Sprintf("strat%d|sw%d|%x", p.Sched.Strategy, bucket(s.Switches()), s.SigHash())
 	res.Faults["context_switch"] = s.Switches()
@@ -620,7 +625,47 @@ func runPlanS(def *PropDef, p *Plan, scratch string) *RunResult {
 		}
 	}
 	sr.judge(init, final)
+	sr.probesC08(segsBefore)
 	return res
+}
+
+// probesC08 derives reach probes from the recorded history.
+func (sr *sRun) probesC08(segsBefore int) {
+	if sr.def.ID != "C08" {
+		return
+	}
+	var all []hOp
+	for _, h := range sr.hist {
+		all = append(all, h...)
+	}
+	overlap := func(a, b *hOp) bool { return a.Call < b.Ret && b.Call < a.Ret }
+	for i := range all {
+		a := &all[i]
+		if a.In.K == "del" && a.Out.Err == nil && len(a.Out.Offs) > 0 {
+			sr.res.Probes["delete_removed_something"]++
+		}
+		for j := range all {
+			b := &all[j]
+			if i == j || a.Task == b.Task || !overlap(a, b) {
+				continue
+			}
+			switch {
+			case a.In.K == "pub" && b.In.K == "del":
+				sr.res.Probes["publish_overlaps_delete"]++
+			case a.In.K == "pub" && b.In.K == "pub" && i < j:
+				sr.res.Probes["publish_overlaps_publish"]++
+			case a.In.K == "del" && b.In.K == "del" && i < j:
+				sr.res.Probes["delete_overlaps_delete"]++
+			case a.In.K == "del" && (b.In.K == "consume" || b.In.K == "get" || b.In.K == "get_key" || b.In.K == "consume_key" || b.In.K == "get_time"):
+				sr.res.Probes["read_overlaps_delete"]++
+			case a.In.K == "gc" && b.In.K != "gc" && b.In.K != "clock":
+				sr.res.Probes["gc_overlaps_call"]++
+			}
+		}
+	}
+	if n := len(segmentBases(sr.r.Dir)); n > segsBefore {
+		sr.res.Probes["rollover_during_concurrent_phase"]++
+	}
 }
 
 func (sr *sRun) violate(sig, format string, a ...any) {
